@@ -1519,3 +1519,59 @@ B("C07", "cost-through-local", DIS,
                                                                   unitary_alignment[annot_b]]
                     disorder += pair_cost""")
 VARIANTS[:] = [v for v in VARIANTS if v is not None]
+
+# ILP: aggregate constraints and an extracted solve helper (after seeded changes C01 / C08 / C11)
+B("C01", "glpk-aggregate-bound-by-units", CONT, GLPK_BEST,
+  "            cp.Problem(cp.Minimize(disorders.T @ x), [1 <= matmul, cp.sum(matmul) <= A.shape[0]]).solve(solver=cp.GLPK_MI)",
+  "every entry >= 1 and the total <= number of units forces every entry to 1")
+for prop, rule in (("C01", "R-C01-1"), ("C08", "R-C08-1")):
+    M(prop, "glpk-aggregate-bound-by-candidates", CONT, GLPK_BEST,
+      "            cp.Problem(cp.Minimize(disorders.T @ x), [1 <= matmul, cp.sum(matmul) <= n]).solve(solver=cp.GLPK_MI)", rule)
+_HELPER = '''    @staticmethod
+    def _solve_selection(disorders, A, exactly_once: bool):
+        x = cp.Variable(shape=(len(disorders),), boolean=True)
+        covered = A @ x
+        try:
+            import cylp
+            cp.Problem(cp.Minimize(disorders.T @ x), [covered == 1 if exactly_once else covered >= 1]).solve(solver=cp.CBC)
+        except (ImportError, cp.SolverError):
+            logging.warning("CBC solver not installed. Using GLPK.")
+            constraints = [1 <= covered]
+            if exactly_once:
+                constraints.append(%s)
+            cp.Problem(cp.Minimize(disorders.T @ x), constraints).solve(solver=cp.GLPK_MI)
+        assert x.value is not None
+        ids, = np.where(x.value > 0.9)
+        return ids
+
+    def get_first_window(self, dissimilarity'''
+_SOLVE_BEST = """        x = cp.Variable(shape=(n,), boolean=True)
+        try:
+            import cylp
+            cp.Problem(cp.Minimize(disorders.T @ x), [A @ x == 1]).solve(solver=cp.CBC)
+        except (ImportError, cp.SolverError):
+            logging.warning("CBC solver not installed. Using GLPK.")
+            matmul = A @ x
+            cp.Problem(cp.Minimize(disorders.T @ x), [1 <= matmul, matmul <= 1]).solve(solver=cp.GLPK_MI)
+        assert x.value is not None, "The linear solver couldn't find an alignment with minimal disorder " \\
+                                    "(likely because the amount of possible unitary alignments was too high)"
+        # compare with 0.9 as cvxpy returns 1.000 or small values i.e. 10e-14
+        chosen_alignments_ids, = np.where(x.value > 0.9)
+
+        chosen_alignments: np.ndarray = possible_unitary_alignments[chosen_alignments_ids]
+        alignments_disorders: np.ndarray = disorders[chosen_alignments_ids]
+
+        from .alignment import UnitaryAlignment, Alignment
+"""
+_SOLVE_BEST_NEW = """        chosen_alignments_ids = self._solve_selection(disorders, A, exactly_once=True)
+
+        chosen_alignments: np.ndarray = possible_unitary_alignments[chosen_alignments_ids]
+        alignments_disorders: np.ndarray = disorders[chosen_alignments_ids]
+
+        from .alignment import UnitaryAlignment, Alignment
+"""
+for kind, bound, rule in (("B", "covered <= 1", ""), ("M", "x <= 1", "R-C08-1")):
+    for prop in ("C08", "C01"):
+        VARIANTS.append(dict(prop=prop, id=f"solve-helper-extracted-{'ok' if kind == 'B' else 'glpk-bounds-x'}", kind=kind, rule=("R-C01-1" if prop == "C01" and kind == "M" else rule),
+                             edits=[(CONT, "    def get_first_window(self, dissimilarity", _HELPER % bound), (CONT, _SOLVE_BEST, _SOLVE_BEST_NEW)],
+                             note="solve step of get_best_alignment extracted into a flag-driven helper"))
